@@ -517,8 +517,13 @@ fn gen_from_arg_matches(variants: &[(&Variant, Item)]) -> Result<TokenStream, sy
                 let ty = &fields.unnamed[0].ty;
                 Ok(quote! {
                     if __clap_arg_matches
-                        .subcommand_name()
-                        .map(|__clap_name| <#ty as clap::Subcommand>::has_subcommand(__clap_name))
+                        .subcommand()
+                        .map(|(__clap_name, __clap_sub_matches)| {
+                            // an escaped (external) subcommand that merely spells one of the child's names
+                            // belongs to the `external_subcommand` variant, as for the variants above
+                            !__clap_sub_matches.contains_id("")
+                                && <#ty as clap::Subcommand>::has_subcommand(__clap_name)
+                        })
                         .unwrap_or_default()
                     {
                         let __clap_res = <#ty as clap::FromArgMatches>::from_arg_matches_mut(__clap_arg_matches)?;
